@@ -233,3 +233,23 @@ theorem partial_verify_iff (g : G) (hg : ∀ a : ZMod n, a • g = 0 → a = 0) 
   · intro h; rw [h]; module
 
 end BV.C11.Algebra
+
+namespace BV.C11.Algebra
+variable {n : ℕ} {G : Type} [AddCommGroup G] [Module (ZMod n) G]
+
+/-- the aggregate key, both aggregate nonces and the sum of the partial signatures do not depend on the order
+    of the signer list (for a fixed coefficient function, e.g. after `sortKeys`). -/
+theorem keyAgg_perm (g : G) (a : G → ZMod n) {l1 l2 : List (Signer n)} (h : l1.Perm l2) :
+    keyAgg g a l1 = keyAgg g a l2 := by
+  unfold keyAgg; exact (h.map _).sum_eq
+
+theorem nonceAgg_perm (g : G) {l1 l2 : List (Signer n)} (h : l1.Perm l2) :
+    nonceAgg1 g l1 = nonceAgg1 g l2 ∧ nonceAgg2 g l1 = nonceAgg2 g l2 := by
+  unfold nonceAgg1 nonceAgg2; exact ⟨(h.map _).sum_eq, (h.map _).sum_eq⟩
+
+theorem partialSum_perm (g : G) (a : G → ZMod n) (gR gQ gacc b e : ZMod n) {l1 l2 : List (Signer n)}
+    (h : l1.Perm l2) :
+    (l1.map (fun s => partialSig gR gQ gacc b e (a (s.d • g)) s)).sum =
+      (l2.map (fun s => partialSig gR gQ gacc b e (a (s.d • g)) s)).sum := (h.map _).sum_eq
+
+end BV.C11.Algebra
